@@ -9,6 +9,7 @@ sample of the cases that pass this is additionally compiled and run (original vs
 """
 import copy
 import re
+import time
 
 from hypothesis import strategies as st
 
@@ -27,7 +28,8 @@ RULE = ('a module routine is generated whose string literals (both quote kinds, 
         'contain NEWUNIT=/CONVERT= text, a trailing comment or a second statement on the OPEN line, optionally behind a logical IF; '
         'optionally a real @PROCESS directive line. Oracle: parse succeeds; list of statements and multiset of comments of the '
         'regenerated code equal those of the original; StringLiteral values and variable names in the IR equal the generated ones; '
-        'for 1 case in 48 (by case hash) original and regenerated program are compiled and must print the same. '
+        'for 1 accepted case in 48 (by case hash; at most 1 per shard in the quick tier, 40 in the thorough tier) original and regenerated '
+        'program are compiled and must print the same. '
         'non-trivial = at least one trigger sits in an untargeted position (literal/comment/identifier/file-name literal/OPEN-line '
         'tail) or an OPEN statement engages a workaround; distinct by case hash')
 ASSUMPTIONS = ['file suffix .f90: gfortran does not run cpp, so trigger text in literals is ordinary text',
@@ -39,7 +41,8 @@ ASSUMPTIONS = ['file suffix .f90: gfortran does not run cpp, so trigger text in 
                'keyword directly followed by "=" on that line)']
 SHARDS = {'quick': 8, 'thorough': 16}
 BUDGET = {'quick': 70, 'thorough': 1200}
-DIFF_SAMPLE = 48
+DIFF_SAMPLE = 48                            # 1 in 48 accepted cases (by case hash) is compiled and run ...
+DIFF_MAX = {'quick': 1, 'thorough': 40}     # ... up to this many per shard (a compile+run pair costs as much as ~100 text cases)
 
 TRIG_CLASS = {'__FILE__': 'string-pp', '__FILENAME__': 'string-pp', '__DATE__': 'string-pp', '__VERSION__': 'string-pp',
               '__LINE__': 'line-pp', '@PROCESS': 'ibm', '@PROCESS HOT(NOVECTOR)': 'ibm',
@@ -109,7 +112,7 @@ def open_stmt(draw):
         specs.append(['action', "'write'"])
     if convert:
         specs.append(['convert', f"'{convert}'" if draw(st.booleans()) else f'"{convert}"'])
-    unitx = draw(st.sampled_from(['u', 'u', 'us(1)', 'us(1,2)']))
+    unitx = draw(st.sampled_from(['u', 'u', 'uv(1)', 'us(1,2)']))
     specs.append(['newunit', unitx] if use_newunit else ['unit', unitx])
     order = draw(st.permutations(range(len(specs))))
     specs = [specs[i] for i in order]
@@ -144,7 +147,7 @@ def cases(draw, big=False):
             # continued literals carry no blanks: loki recovers literal values by a blank-splitting text search in the statement
             # source (Source.find), which loses continued literals that contain blanks whether or not a trigger is present;
             # that is not a sanitiser workaround and outside this property
-            lit['text'] = t.replace(' ', '_')
+            lit['text'] = t.replace(' ', '.')
             lit['split'] = draw(st.integers(1, len(t) - 1))
         lits.append(lit)
     comments = []
@@ -222,11 +225,12 @@ def build_source(case):
         L.append(IBM_LINE)
     L += ['module kmod', '  implicit none', 'contains', '  subroutine kernel(n, yi0)',
           '    integer, intent(in) :: n', '    integer, intent(inout) :: yi0',
-          '    character(len=200) :: sbuf', '    integer :: u', '    integer :: us(2,2)']
+          '    character(len=200) :: sbuf', '    integer :: u', '    integer :: uv(2)', '    integer :: us(2,2)']
     for idn in case['idents']:
         L.append(f"    integer :: {idn['name']}")
     comments = [(i, c) for i, c in enumerate(case['comments'])]
     L.append('    u = 17')
+    L.append('    uv = 17')
     L.append('    us = 17')
     L.append("    sbuf = ' '")
     if case.get('ibm_line') == 'body':
@@ -533,6 +537,14 @@ def classes_of(case):
 
 
 def check_case(case, ctx, sample_differential=True):
+    t0 = time.time()
+    try:
+        _check_case(case, ctx, sample_differential)
+    finally:
+        ctx.extra['seconds_in_oracle'] = round(ctx.extra.get('seconds_in_oracle', 0) + time.time() - t0, 2)
+
+
+def _check_case(case, ctx, sample_differential):
     case = repair(case, ctx)
     src, ctags = build_source(case)
     classes = classes_of(case)
@@ -654,12 +666,17 @@ def check_case(case, ctx, sample_differential=True):
     # ---- (4) behaviour, on a deterministic sample of the cases the text oracle accepts -------------------------
     if explained or not sample_differential or case.get('ibm_line') or int(case_hash(case), 16) % DIFF_SAMPLE:
         return
+    if ctx.classes.get('differential:compiled-and-run', 0) >= DIFF_MAX[ctx.tier]:
+        ctx.count('differential:sampled-but-over-quota')
+        return
     ctx.count('differential:compiled-and-run')
+    t0 = time.time()
     driver = make_driver(case)
     orig = harness.run_original(case, [{'name': 'kmod.f90', 'text': src}], driver)
     if not orig.ok:
         raise harness.GeneratorBug('C05 original traps: ' + orig.brief() + '\n' + src)
     harness.differential(ctx, case, [('kmod.f90', out)], 'C05:differential', original=orig, driver=driver)
+    ctx.extra['seconds_in_gfortran'] = round(ctx.extra.get('seconds_in_gfortran', 0) + time.time() - t0, 2)
 
 
 def run_shard(ctx):
